@@ -14,8 +14,10 @@ net/http's `*response` restricted to what decides the client-visible response.
     Content-Type is sniffed from the first chunk (`http.DetectContentType`, a parameter; it
     looks at no more than 512 bytes).
 
+Trailers (`Base.trailersAtFinish`): names announced in the snapshot's `Trailer` values and keys with
+`http.TrailerPrefix`, values read from the live map when the handler has returned.
 Not modelled (assumptions of C15, see checks/C15.json): Content-Length / Transfer-Encoding / Date
-(the statement excludes or ignores them), HEAD requests, trailers, hijacking, handlers that declare
+(the statement excludes or ignores them), HEAD requests, hijacking, handlers that declare
 a Content-Length smaller than what they write.  Core Lean only.
 -/
 namespace Rivaas.Http
@@ -41,6 +43,33 @@ def kCT : Bytes := "Content-Type".toList
 def kCE : Bytes := "Content-Encoding".toList
 def kCL : Bytes := "Content-Length".toList
 def kVary : Bytes := "Vary".toList
+def kTrailer : Bytes := "Trailer".toList
+def trailerPrefix : Bytes := "Trailer:".toList
+
+/-! ### trailers (RFC 9110 §6.5 as net/http implements them) -/
+
+def startsWith : Bytes → Bytes → Bool
+  | [], _ => true
+  | _ :: _, [] => false
+  | a :: as, b :: bs => a == b && startsWith as bs
+
+/-- split at commas -/
+def splitComma : Bytes → List Bytes
+  | [] => [[]]
+  | c :: cs =>
+    match splitComma cs with
+    | [] => [[]]
+    | f :: fs => if c == ',' then [] :: f :: fs else (c :: f) :: fs
+
+def trimSpTab (s : Bytes) : Bytes :=
+  ((s.dropWhile (fun c => c == ' ' || c == '\t')).reverse.dropWhile (fun c => c == ' ' || c == '\t')).reverse
+
+/-- the names announced by the `Trailer` values of a header map (canonical names are assumed) -/
+def announced (h : Hdrs) : List Bytes :=
+  (((hget h kTrailer).getD []).flatMap (fun v => (splitComma v).map trimSpTab)).filter (fun n => !n.isEmpty)
+
+/-- a key whose value travels after the body: `http.TrailerPrefix` or announced in `h` -/
+def isTrailerKey (h : Hdrs) (k : Bytes) : Bool := startsWith trailerPrefix k || (announced h).contains k
 
 /-- the sniffing function, a parameter (http.DetectContentType) -/
 abbrev Sniff := Bytes → Bytes
@@ -119,6 +148,24 @@ def Base.resp (b : Base) : Resp :=
     | some t => hset h kCT [t]
     | none => h
   { status := b.status, hdrs := hdel h kCL, body := b.body }
+
+/-- what net/http sends after the body, given the writer state just before finishRequest.
+    `earlyWire`: the header block went out before the handler returned for a reason the model does not
+    see (more than 2048 bytes of encoder output). Trailers need chunked transfer: a status that allows a
+    body, no declared Content-Length, and either an early header block or trailers known at header time
+    (otherwise net/http computes a Content-Length for the finished handler). -/
+def Base.trailersAtFinish (sn : Sniff) (b : Base) (earlyWire : Bool) : Hdrs :=
+  let early := b.sent || earlyWire
+  let f := b.finish sn
+  let known := !(announced f.snap).isEmpty || f.snap.any (fun kv => startsWith trailerPrefix kv.1)
+  let chunked := !noBody f.status && !hhas f.snap kCL && (early || known)
+  if !chunked then []
+  else
+    ((announced f.snap).eraseDups.filterMap (fun k =>
+        match hget f.live k with
+        | some (v :: vs) => some (k, v :: vs)
+        | _ => none)) ++
+      (f.live.filter (fun kv => startsWith trailerPrefix kv.1)).map (fun kv => (kv.1.drop 8, kv.2))
 
 /-- the handler's alphabet: primitive calls on the ResponseWriter -/
 inductive Op
